@@ -160,9 +160,9 @@ CLAIMED = {
     ),
     "C20": (
         "Coq proof over a byte-level model of datetime.fromisoformat / astimezone / pytz lookup with the Berlin transition table regenerated from pytz; finite checks lifted by interval lemmas; correspondence + integer EU-rule oracle",
-        "Props/C20.v (13 theorems): the generated table equals the EU rule on [1996, 2038) (42 years checked by vm_compute + interval lemma, bound in the statement); civil-date round trip on the stated range; for every in-range instant, "
+        "Props/C20.v (14 theorems): the generated table equals the EU rule on [1996, 2038) (42 years checked by vm_compute + interval lemma, bound in the statement); civil-date round trip on the stated range; for every in-range instant, "
         "every offset |o| < 24h and every listed shape 932/933 are fulfilled iff local time is 00:00:00, 934/935 iff 06:00:00, 931 iff offset zero (instant and offset symbolic); any aware datetime is judged by its instant only; "
-        "every string that does not parse is unfulfilled with a message; no string makes the five evaluators raise (incl. year-1/9999 overflow); a string whose first character is not an ASCII digit is no datetime, so white space in front of a fulfilling datetime makes all five unfulfilled with a message (C20_first_character_must_be_a_digit, C20_leading_white_space_is_no_datetime), and a NUL-free string that ends in an ASCII white space character parses at most as a naive datetime, so it is unfulfilled as well (C20_trailing_white_space_is_no_datetime).",
+        "every string that does not parse is unfulfilled with a message; no string makes the five evaluators raise (incl. year-1/9999 overflow); a string whose first character is not an ASCII digit is no datetime, so white space in front of a fulfilling datetime makes all five unfulfilled with a message (C20_first_character_must_be_a_digit, C20_leading_white_space_is_no_datetime), and a NUL-free string that ends in an ASCII white space character parses at most as a naive datetime, so it is unfulfilled as well (C20_trailing_white_space_is_no_datetime); in general an aware datetime ends in a digit or in Z (C20_last_character_is_a_digit_or_Z).",
         "Trusted: Coq kernel; gen_tz translator (fails closed on unexpected pytz shapes); hand model of CPython's fromisoformat (fuzzed 2.3M strings during construction, tied every run by correspondence), astimezone range checks and pytz's fromutc (modelled, not verified).",
         "DESIGN.md section 5 C20",
     ),
